@@ -200,6 +200,18 @@ def explore(ctx):
             for g in desc["glyphs"]:
                 g["unicodes"] = []
             desc["glyphs"][-1]["unicodes"] = [[0x1F600, 0x0, 0x10FFFF, 0xFFFF][(i // 12) % 4]] if desc["glyphs"][-1]["name"] != ".notdef" else []
+        if i % 6 == 0:
+            # always (TrueType on even i): a composite whose FIRST component has the composite's own advance and is not moved
+            # (so it is the one whose metrics a rasteriser may take) while ANOTHER component sticks out further to the left:
+            # the composite's left side bearing is its own outline's xMin, not the first component's
+            box = lambda x0, y0, x1, y1: [[(Fr(x0), Fr(y0), "line"), (Fr(x1), Fr(y0), "line"), (Fr(x1), Fr(y1), "line"), (Fr(x0), Fr(y1), "line")]]
+            one = (Fr(1), Fr(0), Fr(0), Fr(1))
+            desc["glyphs"] += [{"name": "um.i", "width": Fr(250), "unicodes": [], "contours": box(100, 0, 150, 500), "components": []},
+                               {"name": "um.tilde", "width": Fr(0), "unicodes": [], "contours": box(-80, 560, 130, 620), "components": []},
+                               {"name": "um.itilde", "width": Fr(250), "unicodes": [], "contours": [],
+                                "components": [("um.i", one + (Fr(0), Fr(0))), ("um.tilde", one + (Fr(100), Fr(0)))]}]
+            desc["glyphOrder"] = [g["name"] for g in desc["glyphs"]]
+            ctx.klass("composite whose first component shares its advance, another one sets xMin")
         flavor = ["ttf", "otf"][i % 2]
         if len(desc["glyphs"]) == 1 and desc["glyphs"][0]["name"] == ".notdef":
             # a CFF font holding only .notdef gets cffsubr's predefined ISOAdobe charset, which fontTools 4.55
